@@ -40,11 +40,19 @@ def project(v, depth=0):
     return {"ty": "other", "c": type(v).__name__}
 
 
+class _Identity:
+    """stands in for PythonASTOptimizer: the generated module body is compiled as generated"""
+
+    def visit(self, node):
+        return node
+
+
 class Runner:
     def __init__(self, opts):
         boot.init()
         from basilisp.lang import runtime, symbol as sym
-        self.opts = dict(opts)
+        self.opts = {k: v for k, v in opts.items() if not k.startswith("__")}
+        self.noopt = bool(opts.get("__noopt"))
         self.log = []
         self.sc = None
         self.n = 0
@@ -57,6 +65,8 @@ class Runner:
         self.sc = boot.Scratch(warn_on_unused_names=False, warn_on_shadowed_name=False,
                                warn_on_shadowed_var=False, warn_on_arity_mismatch=False,
                                warn_on_var_indirection=False, **self.opts)
+        if self.noopt:
+            self.sc.ctx._optimizer = _Identity()
         log = self.log
 
         def m(k, *v):
